@@ -90,7 +90,7 @@ func c18Template(r *R) string {
 	n := r.Range(2, 7)
 	dump := func(e string) string { return "\x01{{ " + e + "|json_encode }}\x02" }
 	for i := 0; i < n; i++ {
-		switch r.N(28) {
+		switch r.N(29) {
 		case 0, 1:
 			l, f := listAndFilter(r)
 			sb.WriteString("{{ " + l + "|" + f + "|json_encode }};")
@@ -186,6 +186,14 @@ func c18Template(r *R) string {
 		case 27:
 			// arbitrary-precision numbers (pointer types with in-place arithmetic)
 			sb.WriteString("{{ bigi|abs }}{{ bigr|abs }}{{ bigi }}{{ bigi|default(0) }}{{ bigi|json_encode }};")
+		case 28:
+			// a caller's hash as the ARGUMENT of a filter; values that implement sort.Interface
+			if r.P(25) {
+				// (this engine answers the one-argument form with an error, which ends the render: kept rare)
+				sb.WriteString(pick(r, []string{"{{ s1|replace(repl) }}", "{{ 'xay'|replace(cfgs) }}", "{{ S2|replace(repl) }}"}) + ";")
+			} else {
+				sb.WriteString(pick(r, []string{"{{ ss|sort|join(',') }}{{ ss|first }}{{ ss|reverse|first }}", "{{ ss|sort|first }}{{ ss|join(',') }}"}) + ";")
+			}
 		default:
 			sb.WriteString("{% do " + "n1 + 1 %}{{ pp.Inner.Name }}{{ pp.Greeting }}{{ l2|first|json_encode }};")
 		}
@@ -222,6 +230,8 @@ func (propC18) Gen(seed uint64, ex map[string]bool) interface{} {
 		}()}},
 		KV{"cfgd", &Val{T: "map", M: []KV{{"db", &Val{T: "map", M: []KV{{"host", s("h")}, {"port", i(1)}}}}, {"name", s("defaults")}}}},
 		KV{"cfgs", &Val{T: "map", M: []KV{{"db", &Val{T: "map", M: []KV{{"port", i(2)}}}}, {"site", s("s")}}}},
+		KV{"repl", &Val{T: "map", M: []KV{{"", s("empty-key")}, {"a", i(1)}, {"b", s("c")}, {"hello", &Val{T: "bool", B: true}}}}},
+		KV{"ss", &Val{T: "sortable", L: []*Val{s("c"), s("a"), s("b")}}},
 		KV{"bigi", &Val{T: "bigint", I: -250}},
 		KV{"bigr", &Val{T: "bigrat", I: -3}},
 		KV{"buf", &Val{T: "buffer", S: "buffered <text>"}},
